@@ -151,3 +151,26 @@ package workceptor
 //@   site call saveToFile WRITEBACK: requires flag("locked") && flag("applied") && flag("truncated") && !flag("saved") && arg0 == sfd
 //@   ensures RELEASED: flag("locked") ==> lastcall("lockStatusFile") == nil
 //@   ensures COMPLETE: result == nil ==> flag("applied") && flag("saved")
+
+// ---- C08: control-service input handling (no panics on any JSON shape)
+
+//@ func strFromMap
+//@   tags C08
+//@   safety
+//@   modifies nothing
+//@ func intFromMap
+//@   tags C08
+//@   safety
+//@   modifies nothing
+//@ func boolFromMap
+//@   tags C08
+//@   safety
+//@   modifies nothing
+//@ func (*workceptorCommandType).InitFromString
+//@   tags C08
+//@   safety
+//@   requires t != nil
+//@ func (*workceptorCommandType).InitFromJSON
+//@   tags C08
+//@   safety
+//@   requires t != nil
